@@ -26,6 +26,12 @@ class XSlice(Slice):
             self._resolve_upvar(u)
         return Slice.place(self, pl)
 
+    def local(self, l):
+        b = self.body
+        if l not in self.seen and 1 <= l <= b.argc and b.parent is None:
+            self.sources.add(("rparam", b.id, l))
+        return Slice.local(self, l)
+
     def _resolve_upvar(self, u):
         b = self.body
         if u in self._up_done or self._depth > 4 or not b.parent:
@@ -145,3 +151,55 @@ DURABLE_SINK = (r"(std::fs::File::(sync_all|sync_data|set_len)|std::io::Write::(
                 r"|tokio::fs::File::(sync_all|sync_data)"
                 r"|rocksdb::\w+(::\w+)*::(put_cf|put|write|write_opt|merge_cf|delete_cf|flush_wal|write_wbwi|write_wbwi_opt)"
                 r"|bincode::\w*::?(serialize_into|encode_into_std_write))$")
+
+
+def origin_slice(F, body, op, depth=3, through_calls=False):
+    """XSlice of `op` whose parameter sources are additionally expanded through every caller of the
+    enclosing function (argument at the same position), `depth` levels up.  Returns the merged slice
+    (sources only).  Async fns: the coroutine's captured parameters are resolved by XSlice first."""
+    s = XSlice(F, body, through_calls).operand(op)
+    _expand_params(F, s, body, depth, through_calls, set())
+    return s
+
+
+def _expand_params(F, s, body, depth, through_calls, done):
+    if depth <= 0:
+        return
+    params = sorted(set((x[1], x[2]) for x in s.sources if x[0] == "rparam"))
+    for (rid, idx) in params:
+        if (rid, idx) in done:
+            continue
+        done.add((rid, idx))
+        for (croot, cbid, cbi, t) in F.callers_of(lambda k: k == rid):
+            if idx - 1 >= len(t["args"]):
+                continue
+            cb = F.bodies[cbid]
+            sub = XSlice(F, cb, through_calls).operand(t["args"][idx - 1])
+            s.sources |= sub.sources
+            _expand_params(F, sub, cb, depth - 1, through_calls, done)
+            s.sources |= sub.sources
+
+
+def only_via(F, fn_id, gate_ok, depth=4):
+    """Walk the call graph upward from root function `fn_id`.  Every chain must reach a call site for
+    which gate_ok(caller_root_id, body, block, terminator) is True before it reaches a function without
+    callers or exhausts `depth`.  Returns (ok, offending chain or None, gate sites)."""
+    gates = []
+
+    def up(fid, chain, d):
+        callers = [c for c in F.callers_of(lambda k: k == fid) if c[0] != fid]
+        if not callers:
+            return chain
+        for (croot, cbid, cbi, t) in callers:
+            g = gate_ok(croot, F.bodies[cbid], cbi, t)
+            if g:
+                gates.append((croot, cbid, cbi))
+                continue
+            if d <= 1:
+                return chain + [croot]
+            r = up(croot, chain + [croot], d - 1)
+            if r is not None:
+                return r
+        return None
+    bad = up(F.root_of.get(fn_id, fn_id), [fn_id], depth)
+    return bad is None, bad, gates
